@@ -759,6 +759,50 @@ Definition resign (cs : list cspec) (m : list N) : option str :=
   | [] => None
   end.
 
+(* kind 5: alterations of the signature that keep the multiset or the sum of its
+   bytes (a comparison that adds up differences instead of counting mismatches
+   accepts them): b = 0 swap two adjacent characters, 1 add k to one character and
+   subtract k from another, 2 rotate, 3 reverse, 4 the +k / -k edit on the DECODED
+   signature bytes (re-encoded) *)
+Fixpoint upd_nth (i : nat) (f : N -> N) (l : list N) : list N :=
+  match l, i with
+  | [], _ => []
+  | x :: r, O => f x :: r
+  | x :: r, S i' => x :: upd_nth i' f r
+  end.
+
+Definition pm_edit (modulus : N) (p q : nat) (k : N) (l : list N) : list N :=
+  if Nat.eqb p q then l
+  else upd_nth p (fun x => (x + k) mod modulus) (upd_nth q (fun x => (x + modulus - k mod modulus) mod modulus) l).
+
+Definition sig_edit (sub a : nat) (repl sig : str) : str :=
+  let n := length sig in
+  let q := Nat.modulo (N.to_nat (nth 0 repl 0)) n in
+  let k := nth 1 repl 1 in
+  match n with
+  | O => sig
+  | S n' =>
+    let p := Nat.modulo a n in
+    match sub with
+    | 0%nat => match n' with
+               | O => sig
+               | _ => let i := Nat.modulo a n' in
+                      firstn i sig ++ nth (S i) sig 0 :: nth i sig 0 :: skipn (S (S i)) sig
+               end
+    | 1%nat => pm_edit 128 p q k sig
+    | 2%nat => skipn p sig ++ firstn p sig
+    | 3%nat => rev sig
+    | _ => match b64decode sig with
+           | Some bs =>
+             match length bs with
+             | O => sig
+             | m => b64encode (pm_edit 256 (Nat.modulo a m) (Nat.modulo (N.to_nat (nth 0 repl 0)) m) k bs)
+             end
+           | None => sig
+           end
+    end
+  end.
+
 Definition tamper (cs : list cspec) (kind : Z) (a b : nat) (repl : str) (wires : list str) : str :=
   let hdr := join [59; 32] wires in
   match kind, wires with
@@ -774,6 +818,11 @@ Definition tamper (cs : list cspec) (kind : Z) (a b : nat) (repl : str) (wires :
     | _, _ => hdr
     end
   | 4%Z, _ => match resign cs repl with Some h => h | None => hdr end
+  | 5%Z, w1 :: _ =>
+    match sig_region w1 with
+    | Some (p1, q1) => firstn p1 w1 ++ sig_edit b a repl (slice w1 p1 q1) ++ skipn q1 w1
+    | None => hdr
+    end
   | _, _ => hdr
   end.
 
